@@ -57,10 +57,6 @@ Theorem C04_property_value_refuted : corrupts w_property_value.            (* D2
 Proof. vm_compute. reflexivity. Qed.
 Theorem C04_scalar_subclass_refuted : corrupts w_myint /\ corrupts w_mystr.  (* MyInt(5) -> 5, MyStr('s') -> 's' *)
 Proof. split; vm_compute; reflexivity. Qed.
-Theorem C04_defaultdict_subclass_refuted : corrupts w_defaultdict_subclass.  (* MyDefaultDict -> defaultdict *)
-Proof. vm_compute. reflexivity. Qed.
-Theorem C04_tuple_subclass_refuted : corrupts w_tuple_subclass.            (* MyTuple((1,2)) -> (1,2) *)
-Proof. vm_compute. reflexivity. Qed.
 Theorem C04_surrogates_refuted : corrupts w_surrogates.                    (* '😀' (2 code points) -> 1 code point *)
 Proof. vm_compute. reflexivity. Qed.
 Print Assumptions C04_objarray_refuted.
@@ -69,11 +65,20 @@ Print Assumptions C04_objarray_refuted.
 Theorem C04_guard_excludes_witnesses :
   forallb (fun w => negb (c04_ok wf w))
     [w_colliding_keys; w_frozenset; w_deque; w_objarr_seq; w_property_value; w_myint; w_mystr;
-     w_defaultdict_subclass; w_tuple_subclass; w_surrogates] = true.
+     w_surrogates] = true.
 Proof. vm_compute. reflexivity. Qed.
 
 (* D07, fixed in the repository (fix: dict with bool keys ...): {False:'x', True:'y'} now loads as itself *)
 Theorem C04_bool_keys_fixed : rt w_bool_keys = Ok w_bool_keys /\ c04_ok wf w_bool_keys = true.
+Proof. split; vm_compute; reflexivity. Qed.
+
+(* C04-F3, fixed in the repository (fix: a tuple subclass loads as an instance of that subclass): MyTuple((1, 2)) now
+   loads as itself, like list and set subclasses do *)
+Theorem C04_tuple_subclass_fixed : rt w_tuple_subclass = Ok w_tuple_subclass /\ c04_ok wf w_tuple_subclass = true.
+Proof. split; vm_compute; reflexivity. Qed.
+
+(* C04-F2, fixed in the repository (fix: a defaultdict subclass loads as an instance of that subclass) *)
+Theorem C04_defaultdict_subclass_fixed : rt w_defaultdict_subclass = Ok w_defaultdict_subclass /\ c04_ok wf w_defaultdict_subclass = true.
 Proof. split; vm_compute; reflexivity. Qed.
 
 (* non-vacuity of the guard: a nested value of the full grammar satisfies it and round-trips exactly *)
